@@ -89,7 +89,7 @@ def make_case(seed, index, tier):
         consumers[0].update(mode='iter', count=10 ** 9, work=rng.choice([0.5, 1, 2]))
     return {'seed': seed, 'index': index, 'tier': tier, 'burst': burst,
             'twins': rng.random() < 0.4, 'reused': rng.random() < 0.4,
-            'nones': rng.random() < 0.25,
+            'nones': rng.random() < 0.25, 'early': rng.random() < 0.3,
             'scenario': {'producers': producers, 'consumers': consumers}}
 
 
@@ -269,11 +269,19 @@ def build_for(case):
 
             async def run():
                 for number, op in enumerate(spec['ops']):
+                    message = '%s.%d' % (name, number)
+                    prepared = None
+                    if case.get('early') and number % 2 == 0 and op['op'] != 'burst':
+                        # the awaitable of the operation is made some time before it is awaited
+                        # (like `scope.do(channel.put(x), after=...)`): it acts when awaited
+                        prepared = channel.close() if op['op'] == 'close' \
+                            else channel.put(wrap(message))
+                        checker.stats['prepared_early'] = checker.stats.get('prepared_early', 0) + 1
                     if op['offset']:
                         await (time + op['offset'])
                     if op['op'] == 'close':
                         checker.close_start(name)
-                        await channel.close()
+                        await (prepared if prepared is not None else channel.close())
                         continue
                     if op['op'] == 'burst':
                         for sub_number in range(op['n']):
@@ -289,10 +297,9 @@ def build_for(case):
                         checker.stats['burst_messages'] = checker.stats.get(
                             'burst_messages', 0) + op['n']
                         continue
-                    message = '%s.%d' % (name, number)
                     accepted = checker.put_start(name, message)
                     try:
-                        await channel.put(wrap(message))
+                        await (prepared if prepared is not None else channel.put(wrap(message)))
                     except StreamClosed:
                         checker.put_outcome(name, message, accepted, True)
                     else:
